@@ -47,6 +47,7 @@ def _run_instance(task):
 
         def run(ex):
             try:
+                lib.reset()
                 lib['bitcoin'].SelectParams('mainnet')
                 fn(SymCtx(ex, lib), **params)
             except (core.PathAbort, core.Inconclusive, core.HarnessViolation):
@@ -157,16 +158,82 @@ def main():
         random.Random(seed).shuffle(insts)
     _lib()   # shadow-load /repo's current tree once, children inherit it by fork
     tasks = [(i, prop_id, inst, a.tier) for i, inst in enumerate(insts)]
+    # work order: round-robin over the harnesses, so that every harness is represented among the first tasks to finish
+    rank, cnt = {}, {}
+    for t in tasks:
+        h = t[2]['h']
+        rank[t[0]] = cnt.get(h, 0)
+        cnt[h] = rank[t[0]] + 1
+    tasks.sort(key=lambda t: (rank[t[0]], t[0]))
     results = []
+    cut_short = []
+    os.makedirs(os.path.join(VERIF, 'replays', prop_id), exist_ok=True)
+    known = _known(prop_id)
+    triaged = {}
+
+    def triage(inst, c):
+        """replay one counterexample candidate on the real import -> (kind, path, replay result, known finding)"""
+        key = (inst['h'], c['label'], json.dumps(c['inputs'], sort_keys=True))
+        if key in triaged:
+            return triaged[key]
+        path = os.path.join(VERIF, 'replays', prop_id, '%s-%s-%d.json' % (
+            inst['h'], ''.join(ch if ch.isalnum() else '_' for ch in c['label'])[:40], len(triaged)))
+        case = dict(property=prop_id, harness=inst['h'], params=inst.get('p', {}), inputs=c['inputs'],
+                    label=c['label'], detail=c['detail'])
+        with open(path, 'w') as f:
+            json.dump(case, f, indent=1, sort_keys=True)
+        rr = run_replay(path)
+        res = ('discrepancy', path, rr, None)
+        if rr.get('failed') or rr.get('exception'):
+            lab = (rr.get('failed') or ['uncaught:' + rr['exception'].split(':')[0]])[0]
+            hit = None
+            for k in known:
+                if _match_known(k, inst['h'], inst.get('p', {}), lab, c['inputs']) or \
+                        _match_known(k, inst['h'], inst.get('p', {}), c['label'], c['inputs']):
+                    hit = k
+                    break
+            if hit:
+                os.remove(path)
+                res = ('known', path, rr, hit)
+            else:
+                res = ('violation', path, rr, None)
+        triaged[key] = res
+        return res
     jobs = max(1, min(a.jobs, len(tasks)))
     if jobs == 1:
         for t in tasks:
             results.append(_run_instance(t))
     else:
+        # once a counterexample has been confirmed on the real code the verdict (exit 1) is settled: the remaining instances get a
+        # grace period and are then cut off, so that a change which also makes other instances explode cannot delay the report
+        grace = float(os.environ.get('SYMX_GRACE_S', '150' if a.tier == 'quick' else '600'))
+        deadline = None
         cx = mp.get_context('fork')
         with cx.Pool(jobs, maxtasksperchild=50) as pool:
-            for r in pool.imap_unordered(_run_instance, tasks, chunksize=1):
-                results.append(r)
+            it = pool.imap_unordered(_run_instance, tasks, chunksize=1)
+            while len(results) < len(tasks):
+                try:
+                    r = it.next(timeout=5)
+                except mp.TimeoutError:
+                    r = None
+                except StopIteration:
+                    break
+                if r is not None:
+                    results.append(r)
+                    if deadline is None:
+                        for c in r['cex']:
+                            if triage(insts[r['idx']], c)[0] == 'violation':
+                                deadline = time.time() + grace
+                                break
+                if deadline is not None and time.time() > deadline:
+                    pool.terminate()
+                    break
+        done = set(r['idx'] for r in results)
+        for i, inst in enumerate(insts):
+            if i not in done:
+                cut_short.append(inst)
+                results.append(dict(idx=i, status='skipped', reason='run cut short after a confirmed violation', stats=None, cex=[],
+                                    witnesses=[], wall=0.0))
     results.sort(key=lambda r: r['idx'])
 
     if a.slow:
@@ -190,40 +257,25 @@ def main():
             errors.append((inst, r['reason']))
         elif r['status'] == 'inconclusive':
             inconclusive.append((inst, r['reason']))
+        elif r['status'] == 'skipped':
+            pass
         for c in r['cex']:
             candidates.append((inst, c))
         for w in r['witnesses']:
             samples.append((inst, w))
 
-    os.makedirs(os.path.join(VERIF, 'replays', prop_id), exist_ok=True)
-    known = _known(prop_id)
     violations, known_hits, discrepancies = [], [], []
     seen = set()
-    for n, (inst, c) in enumerate(candidates):
+    for inst, c in candidates:
         key = (inst['h'], c['label'], json.dumps(c['inputs'], sort_keys=True))
         if key in seen:
             continue
         seen.add(key)
-        path = os.path.join(VERIF, 'replays', prop_id, '%s-%s-%d.json' % (
-            inst['h'], ''.join(ch if ch.isalnum() else '_' for ch in c['label'])[:40], n))
-        case = dict(property=prop_id, harness=inst['h'], params=inst.get('p', {}), inputs=c['inputs'],
-                    label=c['label'], detail=c['detail'])
-        with open(path, 'w') as f:
-            json.dump(case, f, indent=1, sort_keys=True)
-        rr = run_replay(path)
-        if rr.get('failed') or rr.get('exception'):
-            lab = (rr.get('failed') or ['uncaught:' + rr['exception'].split(':')[0]])[0]
-            hit = None
-            for k in known:
-                if _match_known(k, inst['h'], inst.get('p', {}), lab, c['inputs']) or \
-                        _match_known(k, inst['h'], inst.get('p', {}), c['label'], c['inputs']):
-                    hit = k
-                    break
-            if hit:
-                known_hits.append((hit, path))
-                os.remove(path)
-            else:
-                violations.append((path, c, rr))
+        kind, path, rr, hit = triage(inst, c)
+        if kind == 'violation':
+            violations.append((path, c, rr))
+        elif kind == 'known':
+            known_hits.append((hit, path))
         else:
             discrepancies.append((path, c, rr))
 
@@ -297,6 +349,7 @@ def main():
                 engine='symx: real /repo source executed on z3-backed proxies; z3 %s' % _z3v(),
                 sources_encoded_from=sorted(set(_lib().sources.values())),
                 known_findings_hit=[k['id'] for k, _ in known_hits],
+                instances_cut_short_after_confirmed_violation=len(cut_short),
                 exhaustive=False,
                 explanation='Each state is one symbolic path (an equivalence class of inputs); every obligation on '
                             'every path was decided by the SMT solver for all values of the symbolic inputs within the bounds.',
